@@ -485,13 +485,18 @@ Definition cause_in (c : cause) (l : list (nat * cause)) : bool := existsb (fun 
 
 Definition is_nil {A} (l : list A) : bool := match l with [] => true | _ => false end.
 
-(* outcome part: C05_success_iff / C05_error_carried / C05_cancel_prompt *)
-Definition spec_outcome_b (fails_at_return : list (nat * cause)) (cancelled_at_return : bool) (r : res) : bool :=
+(* outcome part: C05_success_iff / C05_error_carried / C05_cancel_prompt.
+   [all_nil]: Engine.Run had received a nil result from every pool (each pool's Run saw its
+   awaitErr channel closed) when it returned. *)
+Definition spec_outcome_b (fails_at_return : list (nat * cause)) (cancelled_at_return : bool)
+                          (all_nil : bool) (r : res) : bool :=
   match r with
-  | RNil => is_nil fails_at_return || cancelled_at_return
+  | RNil => all_nil && (is_nil fails_at_return || cancelled_at_return)
   | RFail c => negb cancelled_at_return && cause_in c fails_at_return
   | RCtx => cancelled_at_return
   end.
+
+Definition front_is_nil (s : pstate) : bool := match front s with Some RNil => true | _ => false end.
 
 (* termination part: C05_terminates *)
 Definition spec_term_b (o : observation) : bool := o_wait o && o_settled o.
